@@ -45,6 +45,7 @@ type rscenario struct {
 	Buf      int      `json:"buf"`
 	Discard  int      `json:"discard"` // Discard() after this many Reads of each message; -1 never
 	Want     []int    `json:"want"`
+	DataErr  bool     `json:"dataErr"` // the transport returns its final bytes together with the end error
 	stream   []byte
 }
 
@@ -218,7 +219,7 @@ func runReader(sc *rscenario) (evs []interface{}) {
 			end = vh.ErrInjected
 		}
 	}
-	src := &vh.ChunkReader{Data: data, Sizes: sc.Chunk, End: end}
+	src := &vh.ChunkReader{Data: data, Sizes: sc.Chunk, End: end, DataErr: sc.DataErr}
 	evs = append(evs, sc)
 	defer func() {
 		if p := recover(); p != nil {
